@@ -85,6 +85,8 @@ func extensionsOf(name string) []goldmark.Extender {
 	case "allattr": // all, table alignment pinned to the attribute method, east-asian line breaks off (C10)
 		return []goldmark.Extender{extension.Linkify, extension.NewTable(extension.WithTableCellAlignMethod(extension.TableCellAlignAttribute)),
 			extension.Strikethrough, extension.TaskList, extension.DefinitionList, extension.Footnote, extension.Typographer}
+	case "gfmattr": // GFM members with table alignment pinned to the attribute method (C10)
+		return []goldmark.Extender{extension.Linkify, extension.NewTable(extension.WithTableCellAlignMethod(extension.TableCellAlignAttribute)), extension.Strikethrough, extension.TaskList}
 	case "nocjk": // everything except CJK
 		return []goldmark.Extender{extension.GFM, extension.DefinitionList, extension.Footnote, extension.Typographer}
 	}
